@@ -2,4 +2,5 @@ package checks
 
 var Registry = map[string]func(*Ctx) int{
 	"C15": C15,
+	"C01": C01,
 }
